@@ -529,6 +529,8 @@ def mon_app(pid, run):
                 hits.append((i, "the PrepareProposal handler selected %d mempool transactions: with the block message the proposal exceeds the 16 every validator accepts" % nsel))
             elif not c.startswith("ok") and "e" not in vs:
                 hits.append((i, "the PrepareProposal handler failed on a mempool whose removals all succeed: %s" % impl[:120]))
+        if pid == "C19" and kind == "a.failiso" and a.get("same") == "0":
+            hits.append((i, "a failed transaction changed module state: the same block without it ends in another state (%s)" % a.get("detail")))
         if pid == "C07" and kind == "a.det" and a.get("same") == "0":
             hits.append((i, "same block, same state, different result: %s" % a.get("detail")))
         if pid == "C13" and kind == "a.export" and a.get("same") == "0" and re.match(r"(state-differs:lock:|initial-validator-set-differs|imported-chain-halts)", a.get("detail", "")):
